@@ -228,9 +228,16 @@ def tRegexError (st : LexState) (pos : Nat) : Err :=
 
 /-! ### `get_lexer_token` -/
 
+/-- `self.cur_token_real is not None and self.cur_token_real.type == 'PERIOD'`: what `t_ID` reads from the lexer
+    object when ply calls it (before `_set_tokens` runs for the token being made) -/
+def afterPeriod (st : LexState) : Bool :=
+  match st.curTokenReal with
+  | some t => t.type = "PERIOD"
+  | none => false
+
 /-- `get_lexer_token()` with ply in state `s`: the ply token gets `colno`, then `_update_newline_idx` -/
 def getLexerToken (s : LexerState) (st : LexState) : Res (Option Token) :=
-  match plyToken s st.text st.lexpos with
+  match plyToken s st.text st.lexpos (afterPeriod st) with
   | .eof p => .ok (none, { st with lexpos := p })
   | .modelGap r => .error (.modelGap ("lexer rule " ++ r))
   | .error p =>
